@@ -10,26 +10,24 @@ PROP = {
     "clauses": [
         "C04-1 PathSolution::valid_next_seg / try_add_edge: accepted kind sequences are exactly {nc, c, nc.nc, nc.c, c.nc, nc.c.nc}; "
         "inductive step from an arbitrary solution whose kinds are in the rule; edges.len() <= 3 (3-slot ArrayVec push in path() cannot fail)",
-        "C04-2 the comparator of MultiGraph::get_paths is a total preorder on solutions with <= 3 edges (reflexive, antisymmetric, "
-        "transitive), primary key cost, secondary key edge count",
-        "C04-3 metadata of PathSolution::path() for single-edge solutions over L<=3 symbolic entries (1 peer entry each): hop fields copied "
-        "bit for bit in travel order, CONS_DIR/PEERING flags, interface list = travel-order link ends, MTU = min over AS / ingress / "
-        "peer MTUs (AS MTU saturated to u16), metadata.expiration = earliest hop expiry = expiry of the encoded path, src/dst = first/last AS",
         "C04-4 number_of_hops: no underflow/overflow under len >= 1 && idx < len, for every usize length",
     ],
     "not_decided": [
+        "C04-2 ordering comparator of `get_paths` [B(<=3 edges)]: on symbolic triples of solutions the closure is a total preorder (antisymmetric, "
+        "transitive, total) and sorts primarily by `cost`, then by edge count: harness c04_sort_cmp_total_preorder written, CBMC timed out at 900 s "
+        "(three 32-byte SegmentID comparisons per edge pair); not registered",
+        "C04-3 metadata truthfulness of every built path [B(L)]: interface list = travel-order (egress, ingress) pairs of the encoded hop fields with "
+        "the first ingress/last egress omitted; MTU = min over AS MTUs, ingress MTUs of traversed links and peer MTU; `metadata.expiration` = min over "
+        "hops of `timestamp + (exp+1)*337.5 s` = `StandardPath::expiration`; `src/dst` = first/last interface AS: harnesses c04_meta_single_edge_l2/l3 "
+        "written, not run to completion (PathSolution::path() alone did not finish in 25 min in CBMC: TinyVec<[HopField;12]> x ArrayVec<[Segment;3]> "
+        "defaults, encode, view parse); not registered. The MTU clause is violated on the unchanged tree by concrete test (F-mtu-trunc)",
         "exactness of the *set* of returned paths (soundness + completeness against an independent enumerator), duplicate-freedom via "
         "SHA-256 fingerprints in a `HashMap`, permutation independence of the input lists, the `> 2` occurrences loop filter. These need "
         "whole-algorithm reasoning over nested hash maps of references and a BFS queue; Verus cannot take the code (generic `Entry`, "
         "`HashMap<&InputSegment,...>`, closures), Kani's HashMap model makes even a 2-segment BFS intractable.",
-        "C04-3 for 2- and 3-edge solutions (interface list / MTU / expiry across segment boundaries): not run (time); the per-edge loop body is the same code",
-        "C04-3 interface list when traversed hop fields carry interface id 0 (the code drops id 0 silently)",
     ],
     "assumptions": [
-        STUBS,
         "C04-1 requires cost + weight not to overflow u64 (holds for number_of_hops: weight <= segment length)",
-        "C04-2: the sort closure is anonymous; the harness checks a verbatim copy (`sort_cmp`) tied to the source by a textual anchor",
-        "C04-3 requires non-zero interface ids on traversed links and ingress id/MTU 0 on the first entry (well-formed beacon)",
     ],
     "trusted": ["tinyvec ArrayVec/TinyVec (verified inside harness reach only)"],
     "units": [
@@ -58,10 +56,8 @@ PROP = {
                 H("c04_add_edge_step_n3", "P", what="try_add_edge inductive step, 3 edges: always rejected"),
                 H("c04_new_solution_is_empty", "P", what="base case"),
                 H("c04_number_of_hops_no_underflow", "P", what="number_of_hops total under len>=1 && idx<len, all usize lengths"),
-                H("c04_sort_cmp_total_preorder", "B", tier="thorough", bound="<=3 edges per solution, segment ids differ in one symbolic byte",
-                  what="comparator order laws on symbolic triples", timeout=3000),
-                H("c04_meta_single_edge_l2", "B", bound="1 edge, 2 entries, 1 peer entry each", what="metadata truthfulness", timeout=1500),
-                H("c04_meta_single_edge_l3", "B", tier="thorough", bound="1 edge, 3 entries, 1 peer entry each", what="metadata truthfulness", timeout=3000),
+                # written but NOT registered (did not discharge, see not_decided): c04_sort_cmp_total_preorder,
+                # c04_meta_single_edge_l2, c04_meta_single_edge_l3
             ],
         },
     ],
